@@ -157,11 +157,24 @@ class Converter(object):
         self.typedefs = {}
         self.protos = {}
         self.record_ids = {}
+        self._relcache = {}
 
     # -- location tracking (document order) --
+    def relmap(self, f):
+        r = self._relcache.get(f)
+        if r is None:
+            if f.startswith(REPO + '/'):
+                r = f[len(REPO) + 1:]
+            elif f.startswith(INC + '/'):
+                r = 'include/' + f[len(INC) + 1:]
+            else:
+                r = f
+            self._relcache[f] = r
+        return r
+
     def _bare(self, d):
         if 'file' in d:
-            self.cur_file = d['file']
+            self.cur_file = self.relmap(d['file'])
         if 'line' in d:
             self.cur_line = d['line']
         return self.cur_file, self.cur_line
@@ -225,7 +238,7 @@ class Converter(object):
             self.top(n)
 
     def in_repo(self, f):
-        return f is not None and (f.startswith(REPO + '/') or f.startswith(INC + '/'))
+        return f is not None and not f.startswith('/')
 
     def top(self, n):
         kind = n.get('kind')
@@ -370,7 +383,7 @@ class Converter(object):
             if self.protos[name]['static']:
                 fn.static = True
         fn.body = body
-        fn.qname = (os.path.relpath(self.unit, REPO) + '::' + name) if fn.static else name
+        fn.qname = (self.unit + '::' + name) if fn.static else name
         self.funcs.append(fn)
 
     # -- statements --
@@ -667,17 +680,23 @@ class Unit(object):
 
 
 def parse_unit(args):
-    path, config = args
+    path, config, cpath = args
+    if cpath and os.path.exists(cpath):
+        try:
+            with open(cpath, 'rb') as f:
+                return ('ok', path, f.read())
+        except OSError:
+            pass
     cmd = ['clang'] + flags(config) + ['-fsyntax-only', '-Xclang', '-ast-dump=json', path]
     p = subprocess.run(cmd, stdout=subprocess.PIPE, stderr=subprocess.PIPE)
     if p.returncode != 0:
         return ('error', path, p.stderr.decode(errors='replace')[-2000:])
     tu = json.loads(p.stdout)
-    conv = Converter(path)
+    conv = Converter(os.path.relpath(path, REPO))
     sys.setrecursionlimit(20000)
     conv.convert(tu)
     u = Unit()
-    u.path = path
+    u.path = os.path.relpath(path, REPO)
     u.funcs = conv.funcs
     u.globals = conv.globals
     u.records = conv.records
@@ -685,43 +704,91 @@ def parse_unit(args):
     u.typedefs = conv.typedefs
     u.protos = conv.protos
     u.diagnostics = p.stderr.decode(errors='replace')
-    return ('ok', path, pickle.dumps(u, protocol=pickle.HIGHEST_PROTOCOL))
+    blob = pickle.dumps(u, protocol=pickle.HIGHEST_PROTOCOL)
+    if cpath:
+        try:
+            os.makedirs(os.path.dirname(cpath), exist_ok=True)
+            tmp = cpath + '.%d.tmp' % os.getpid()
+            with open(tmp, 'wb') as f:
+                f.write(blob)
+            os.replace(tmp, cpath)
+        except OSError:
+            pass
+    return ('ok', path, blob)
+
+
+def header_hash():
+    """Hash of everything a unit can include from the repository (path independent)."""
+    h = hashlib.sha256()
+    h.update(FRONTEND_VERSION.encode())
+    h.update(open(os.path.abspath(__file__), 'rb').read())
+    h.update(open(os.path.join(os.path.dirname(os.path.abspath(__file__)), 'ir.py'), 'rb').read())
+    paths = []
+    for base in ('src', 'include'):
+        for root, dirs, files in os.walk(repo_path(base)):
+            for fn in files:
+                if fn.endswith(('.h', '.in')):
+                    paths.append(os.path.join(root, fn))
+    paths.append(repo_path('meson.build'))
+    for p in sorted(paths):
+        try:
+            data = open(p, 'rb').read()
+        except OSError:
+            continue
+        h.update(os.path.relpath(p, REPO).encode())
+        h.update(hashlib.sha256(data).digest())
+    return h.hexdigest()
 
 
 def load_units(config='main', use_cache=True, jobs=16):
-    """Parse every unit of a configuration (parallel), with a whole-tree cache."""
+    """Parse every unit of a configuration (parallel).  Per-unit cache keyed by
+    the unit's content, every repository header's content, the configuration
+    and the front end's own source: an edit anywhere invalidates what it must."""
     ensure_include()
     units, unlisted = unit_list(config)
-    key = tree_hash(config)
-    cpath = os.path.join(CACHE, '%s-%s.pickle' % (config, key[:24]))
-    if use_cache and os.path.exists(cpath):
-        try:
-            with open(cpath, 'rb') as f:
-                res = pickle.load(f)
-            return res
-        except Exception:
-            pass
+    hh = header_hash()
     sys.setrecursionlimit(20000)
+    jobs_in = []
+    keys = []
+    for u in units:
+        h = hashlib.sha256()
+        h.update(hh.encode())
+        h.update(config.encode())
+        h.update(os.path.relpath(u, REPO).encode())
+        h.update(open(u, 'rb').read())
+        k = h.hexdigest()
+        keys.append(k)
+        cpath = os.path.join(CACHE, k[:2], k[:40] + '.pickle') if use_cache else None
+        jobs_in.append((u, config, cpath))
     out = []
-    with ProcessPoolExecutor(max_workers=jobs) as ex:
-        for status, path, payload in ex.map(parse_unit, [(u, config) for u in units]):
-            if status != 'ok':
-                raise AnalysisBroken('unit %s failed to parse under config %s:\n%s' % (path, config, payload))
-            out.append(pickle.loads(payload))
-    res = {'config': config, 'units': out, 'unlisted': unlisted, 'key': key}
+    todo = [j for j in jobs_in if not (j[2] and os.path.exists(j[2]))]
+    results = {}
+    for j in jobs_in:
+        if j not in todo:
+            st, path, payload = parse_unit(j)
+            results[path] = (st, payload)
+    if todo:
+        with ProcessPoolExecutor(max_workers=min(jobs, len(todo))) as ex:
+            for status, path, payload in ex.map(parse_unit, todo):
+                results[path] = (status, payload)
+    for u in units:
+        status, payload = results[u]
+        if status != 'ok':
+            raise AnalysisBroken('unit %s failed to parse under config %s:\n%s' % (os.path.relpath(u, REPO), config, payload))
+        out.append(pickle.loads(payload))
+    th = hashlib.sha256(('|'.join(keys)).encode()).hexdigest()
+    return {'config': config, 'units': out, 'unlisted': [os.path.relpath(x, REPO) for x in unlisted], 'key': th}
+
+
+def prune_cache(max_files=600):
     try:
-        os.makedirs(CACHE, exist_ok=True)
-        # keep the cache small: drop older entries of this config
-        for fn in os.listdir(CACHE):
-            if fn.startswith(config + '-') and fn != os.path.basename(cpath):
-                try:
-                    os.unlink(os.path.join(CACHE, fn))
-                except OSError:
-                    pass
-        tmp = cpath + '.%d.tmp' % os.getpid()
-        with open(tmp, 'wb') as f:
-            pickle.dump(res, f, protocol=pickle.HIGHEST_PROTOCOL)
-        os.replace(tmp, cpath)
+        files = []
+        for root, dirs, fns in os.walk(CACHE):
+            for fn in fns:
+                p = os.path.join(root, fn)
+                files.append((os.path.getmtime(p), p))
+        files.sort()
+        for _, p in files[:-max_files]:
+            os.unlink(p)
     except OSError:
         pass
-    return res
